@@ -206,7 +206,7 @@ package redis
 //@ func (*Reader).ReadBytes
 //@   prop C10 C11
 //@   requires readerRI(b)
-//@   modifies all
+//@   modifies b.r, b.w, b.err, b.buf[0:len(b.buf)], b.slice.allocs, b.slice.buf, b.slice.buf[0:len(b.slice.buf)]
 //@   ensures @ri readerRI(b)
 //@   ensures @line result1 == nil ==> len(result0) >= 1
 //@   loop 0 invariant readerRI(b) && 0 <= size && (!isnil(last) ==> size >= len(last) && len(last) >= 1)
@@ -216,6 +216,64 @@ package redis
 //@ func (*Reader).ReadFull
 //@   prop C10 C11
 //@   requires readerRI(b) && 0 <= n
-//@   modifies all
+//@   modifies b.r, b.w, b.err, b.buf[0:len(b.buf)], b.slice.allocs, b.slice.buf, b.slice.buf[0:len(b.slice.buf)]
 //@   ensures @ri readerRI(b)
 //@   ensures @exact result1 == nil && n > 0 ==> len(result0) == n
+
+// ---- RESP decoder (C10 C11) ---------------------------------------------------------
+
+//@ func (*decoder).decodeInt
+//@   prop C10 C11
+//@   requires d != nil && readerRI(d.br)
+//@   modifies d.br.r, d.br.w, d.br.err, d.br.buf[0:len(d.br.buf)]
+//@   ensures @ri readerRI(d.br)
+
+//@ func (*decoder).decodeTextBytes
+//@   prop C10 C11
+//@   requires d != nil && readerRI(d.br)
+//@   modifies d.br.r, d.br.w, d.br.err, d.br.buf[0:len(d.br.buf)], d.br.slice.allocs, d.br.slice.buf, d.br.slice.buf[0:len(d.br.slice.buf)]
+//@   ensures @ri readerRI(d.br)
+
+//@ func (*decoder).decodeBulkString
+//@   prop C10 C11
+//@   requires d != nil && readerRI(d.br)
+//@   modifies d.br.r, d.br.w, d.br.err, d.br.buf[0:len(d.br.buf)], d.br.slice.allocs, d.br.slice.buf, d.br.slice.buf[0:len(d.br.slice.buf)]
+//@   ensures @ri readerRI(d.br)
+//@   ensures @bounded result1 == nil ==> len(result0) <= 536870912
+
+//@ func (*decoder).decodeArray
+//@   prop C10 C11
+//@   requires d != nil && readerRI(d.br)
+//@   modifies all
+//@   ensures @ri d.br == old(d.br) && readerRI(d.br)
+//@   ensures @bounded result1 == nil ==> len(result0) <= 1048576
+//@   loop 0 invariant d.br == old(d.br) && readerRI(d.br) && len(array) == n && n <= 1048576
+
+//@ func (*decoder).decodeInline
+//@   prop C10 C11
+//@   requires d != nil && readerRI(d.br)
+//@   modifies all
+//@   ensures @ri d.br == old(d.br) && readerRI(d.br)
+//@   ensures @nonempty result1 == nil ==> result0 != nil && result0.Type == 42 && len(result0.Array) >= 1
+//@   loop 0 invariant 0 <= l && l <= r + 1 && r <= len(b) + 1 && d.br == old(d.br) && readerRI(d.br)
+
+//@ func (*decoder).decodeResp
+//@   prop C10 C11
+//@   requires d != nil && readerRI(d.br)
+//@   modifies all
+//@   ensures @ri d.br == old(d.br) && readerRI(d.br)
+//@   ensures @value result1 == nil ==> result0 != nil
+
+//@ func (*decoder).decode
+//@   prop C10 C11
+//@   requires d != nil && readerRI(d.br)
+//@   modifies all
+//@   ensures @ri d.br == old(d.br) && readerRI(d.br)
+//@   ensures @value result1 == nil ==> result0 != nil
+
+//@ func (*decoder).Decode
+//@   prop C10 C11
+//@   requires d != nil && readerRI(d.br)
+//@   modifies all
+//@   ensures @ri d.br == old(d.br) && readerRI(d.br)
+//@   ensures @value result1 == nil ==> result0 != nil
